@@ -204,6 +204,16 @@ var Templates = []*Template{
 		Stmt:    func(r *world.PRNG, k int) string { return fmt.Sprintf("vfOld%d(x, err)", k) },
 	},
 	{
+		// one metavariable, used twice: both uses must be the same expression
+		Name:    "same-arg-twice",
+		Patch:   func(k int) string { return fmt.Sprintf("@@\nvar x expression\n@@\n-vfOld%d(x, x)\n+vfNew%d(x)\n", k, k) },
+		Trigger: func(k int) string { return fmt.Sprintf("vfOld%d", k) },
+		Stmt: func(r *world.PRNG, k int) string {
+			e := GenExpr(r, 1)
+			return fmt.Sprintf("vfOld%d(%s, %s)", k, e, e)
+		},
+	},
+	{
 		Name: "type-rename",
 		Patch: func(k int) string {
 			return fmt.Sprintf("@@\nvar T identifier\n@@\n-type VfOld%d T\n+type VfNew%d T\n", k, k)
@@ -357,6 +367,15 @@ func NearMisses(t *Template, k int) (stmts, decls []string) {
 			fmt.Sprintf("type %s = int", trig),
 			fmt.Sprintf("type %s[T any] int", trig),
 			fmt.Sprintf("var %s int", trig),
+		)
+	case "same-arg-twice":
+		stmts = append(stmts,
+			fmt.Sprintf("%s(x+1, y+1)", trig),
+			fmt.Sprintf("%s(x, y)", trig),
+			fmt.Sprintf("%s(g(x), g(1))", trig),
+			fmt.Sprintf("%s(a, b)", trig),
+			fmt.Sprintf("%s(x)", trig),
+			fmt.Sprintf("%s(x.f, x.g)", trig),
 		)
 	case "literal-arg":
 		stmts = append(stmts,
